@@ -239,6 +239,13 @@ func (a *PyReader) Do(op Op) Outcome {
 		a.iterating = true
 		a.pos = 0
 		return Outcome{V: Accept}
+	case "X":
+		// the consumer drops the iterable (break out of the loop): nothing is consumed and the
+		// stream stays open, so every later call is out of order
+		if !a.iterating {
+			return Outcome{V: Unspecified}
+		}
+		return Outcome{V: Accept}
 	case "I":
 		if !a.iterating {
 			return Outcome{V: Unspecified} // the driver never issues this
